@@ -3,8 +3,8 @@ from props.util import *
 
 rule = ("for every indicator except RSI: a base stream of positive prices / valid bars (walk, ties, periodic, grid, gaps; periods 1..5 and "
         "sampled larger) in slot 0 and the same stream with every price multiplied by c in slot 1: c = 2^k for k in {-40,-1,1,40} (quick) / all "
-        "k in -40..40 (thorough) compared within 1e-12 relative (bit-for-bit expected), c in {3, 0.1, 1e-5, 12345.678} within 1e-9; price-valued "
-        "outputs must scale by c, dimensionless ones stay; slot 2 gets the stream shifted by d (keeping prices positive): SMA/EMA/WMA/MIN/MAX and "
+        "k in -40..40 (thorough; 2^-40 and 2^40 always) compared within 1e-12 relative (bit-for-bit expected), c in {3, 0.1, 1e-5, 12345.678} within 1e-9; multipliers {0.5, 2, 25}; price-valued "
+        "outputs must scale by c, dimensionless ones stay; slot 2 gets the stream shifted by d (of the order of the level, and 2^20..2^30 levels; SD/BB variances under the 2^30 shift at 1e-12*t*level*shifted level): SMA/EMA/WMA/MIN/MAX and "
         "band levels shift by d, SD/MAD/TR/ATR/MACD/FAST stay; slot 3 runs Minimum on the negated stream against Maximum. Comparisons are made "
         "where the outputs are finite and well-conditioned. Non-trivial: distinct (case, factor) longer than the period")
 assumptions = ["well-conditioning of ratio outputs is approximated by skipping steps whose outputs are non-finite or whose reference window is flat"]
